@@ -111,7 +111,7 @@ def _simplify(ctx, p, ci):
     if which == 'grdp':
         return p.call('rdp.grdp', pts, t=t, distance=dist, cost=cost, order=order)
     if which == 'rdp_fixed':
-        return p.call('rdp.rdp_fixed', pts, length=rng.choice([2, rng.randint(3, max(3, min(n, 12))), n]), distance=dist, order=order)
+        return p.call('rdp.rdp_fixed', pts, length=rng.choice([2, rng.randint(3, max(3, min(n, 12))), n if n <= 200 else 12]), distance=dist, order=order)
     if which == 'mp_grdp':
         return p.call('rdp.mp_grdp', pts, t=t, min_points=rng.randint(3, max(3, min(n, 12))), distance=dist, cost=cost, order=order)
     tl = ctx.of_kind('tlist')
@@ -253,6 +253,8 @@ def primitives(ctx):
                         'pp', 'rdp_misc', 'detect1', 'lmethod', 'dfdt', 'legacy'])
         a = rng.randrange(0, max(1, n - 3))
         b = rng.randint(min(a + 2, n - 1), n - 1)
+        if b - a > 200:
+            b = a + rng.randint(2, 200)      # the detectors are quadratic or worse: long traces are analysed in windows
         seg = SL(pts, a, b + 1)
         if g == 'metrics':
             coef = R(p.call('linear_fit.linear_fit', x, y))
@@ -396,7 +398,7 @@ def primitives(ctx):
             else:
                 p.call(det, seg)
             if rng.random() < 0.3:
-                p.call('kneedle.knees', rng.choice([seg, pts]), F(rng.choice([0.0, 1.0, 2.0])), F(rng.choice([0.5, 1.0])),
+                p.call('kneedle.knees', rng.choice([seg, pts]) if n <= 200 else seg, F(rng.choice([0.0, 1.0, 2.0])), F(rng.choice([0.5, 1.0])),
                        E('kneedle.PeakDetection.' + rng.choice(['Kneedle', 'ZScore', 'Significant', 'All'])))
         elif g == 'lmethod' and b - a >= 5:
             xs, ys = ({'col': seg, 'c': 0, 'int_in_sim': True} if rng.random() < 0.3 else COL(seg, 0)), COL(seg, 1)
@@ -429,7 +431,10 @@ def streaming(ctx):
     as DUPs, and every library call on the buffer is also compared with a pristine process."""
     rng = ctx.rng
     p = Prog('streaming')
-    ci = rng.choice(ctx.curves())
+    small = [j for j in ctx.curves() if ctx.n(j) <= 400]
+    if not small:
+        return primitives(ctx)
+    ci = rng.choice(small)
     n = ctx.n(ci)
     same = [j for j in ctx.curves() if ctx.n(j) == n]
     buf = p.call('caller.alloc', n)
